@@ -1,13 +1,17 @@
 #!/bin/sh
-# usage: tools/try_mutant.sh <patch.diff> <property id>...   (applies to /repo, runs quick checks, reverts)
+# usage: tools/try_mutant.sh <patch.diff> <property id>...
+# Applies the patch to a scratch worktree of /repo's HEAD (never to /repo itself), points the harness at it
+# with VERIF_REPO, runs the quick (or $TIER) checks, and removes the worktree and its build output.
 set -u
 patch="$(realpath "$1")"; shift
 cd /verif
-if ! git -C /repo diff --quiet; then echo "/repo has uncommitted changes; refusing" >&2; exit 3; fi
-git -C /repo apply "$patch" || { echo "patch does not apply" >&2; exit 3; }
-trap 'git -C /repo checkout -- . ' EXIT INT TERM
+wt="/tmp/tm-$$"; wk="/verif/.work/mut-$$"
+git -C /repo worktree add -q --detach "$wt" HEAD || { echo "cannot create worktree" >&2; exit 3; }
+cleanup() { git -C /repo worktree remove --force "$wt" >/dev/null 2>&1; rm -rf "$wt" "$wk"; }
+trap cleanup EXIT INT TERM
+git -C "$wt" apply "$patch" || { echo "patch does not apply" >&2; exit 3; }
 for id in "$@"; do
-  out=$(VERIF_EVIDENCE_DIR=/verif/.work/mutant-evidence ./check "$id" ${TIER:-quick} 2>&1); code=$?
-  echo "== $(basename $patch) vs $id: exit $code"
-  echo "$out" | grep -E 'VIOLATION|KNOWN|INCONCLUSIVE|^OK|^\s+\[' | head -6
+  out=$(VERIF_REPO="$wt" VERIF_WORKDIR="$wk" VERIF_EVIDENCE_DIR="$wk/evidence" ./check "$id" ${TIER:-quick} 2>&1); code=$?
+  printf '%s\n' "== $(basename "$patch") vs $id: exit $code"
+  printf '%s\n' "$out" | grep -E 'VIOLATION|KNOWN|INCONCLUSIVE|^OK|^\s+\[' | head -6
 done
